@@ -318,6 +318,8 @@ func Run(c string) string {
 		return "ok " + optHex(ov, ook) + " " + optHex(iv, iok) + " " + st
 	case "history":
 		return runHistory(f)
+	case "multi":
+		return runMulti(f)
 	}
 	panic("unknown case " + c)
 }
@@ -333,7 +335,7 @@ func decCfg(s string) Cfg {
 
 // HistoryCase builds a history case line: ops over i (Indexes on the original), r (ReadCounts on
 // the original), a (Allocator A on the original), c (clone the latest clone, or the original),
-// b (Allocator B on the latest clone).
+// b (Allocator B on the latest clone), x (Allocator B on the original), y (Allocator A on the latest clone).
 func HistoryCase(p Prog, a, b Cfg, ops []string) string {
 	return fmt.Sprintf("history %s %s %s %s", Encode(Strip(p)), encCfg(a), encCfg(b), strings.Join(ops, ","))
 }
@@ -352,20 +354,34 @@ func interpOut(r *ir.Program, c Cfg, aliased bool) string {
 	return optHex(v, ok)
 }
 
-func runHistory(f []string) string {
-	p := Decode(f[1])
-	ca, cb := decCfg(f[2]), decCfg(f[3])
+// replayHistory runs the operations on a fresh program object. after is called after every
+// allocation with the object allocated, its configuration, and whether it is the original.
+// Returns the original, the latest clone, the configuration last applied to the clone, the first error.
+func replayHistory(p Prog, ca, cb Cfg, ops string, after func(obj *ir.Program, c Cfg, isOrig bool) string) (*ir.Program, *ir.Program, Cfg, string, error) {
 	orig := ToIR(p)
 	var clone *ir.Program
-	for _, op := range strings.Split(f[4], ",") {
+	var cc Cfg
+	alloc := func(obj *ir.Program, c Cfg, isOrig bool) (string, error) {
+		if err := (pass.Allocator{Input: c.In, Output: c.Out, Format: c.Format}).Execute(obj); err != nil {
+			return "", err
+		}
+		if after != nil {
+			return after(obj, c, isOrig), nil
+		}
+		return "", nil
+	}
+	for _, op := range strings.Split(ops, ",") {
 		var err error
+		msg := ""
 		switch op {
 		case "i":
 			err = pass.Indexes(orig)
 		case "r":
 			err = pass.ReadCounts(orig)
 		case "a":
-			err = pass.Allocator{Input: ca.In, Output: ca.Out, Format: ca.Format}.Execute(orig)
+			msg, err = alloc(orig, ca, true)
+		case "x":
+			msg, err = alloc(orig, cb, true)
 		case "c":
 			if clone == nil {
 				clone = orig.Clone()
@@ -373,21 +389,39 @@ func runHistory(f []string) string {
 				clone = clone.Clone()
 			}
 		case "b":
-			err = pass.Allocator{Input: cb.In, Output: cb.Out, Format: cb.Format}.Execute(clone)
+			cc = cb
+			msg, err = alloc(clone, cb, false)
+		case "y":
+			cc = ca
+			msg, err = alloc(clone, ca, false)
 		default:
 			panic("harness: bad history op " + op)
 		}
 		if err != nil {
-			return "err " + allocErrClass(err)
+			return orig, clone, cc, "", err
 		}
+		if msg != "" {
+			return orig, clone, cc, "after " + op + ": " + msg, nil
+		}
+	}
+	return orig, clone, cc, "", nil
+}
+
+func runHistory(f []string) string {
+	p := Decode(f[1])
+	orig, clone, cc, _, err := replayHistory(p, decCfg(f[2]), decCfg(f[3]), f[4], nil)
+	if err != nil {
+		return "err " + allocErrClass(err)
 	}
 	return "ok " + Encode(FromIR(clone)) + " " + encNames(clone.Temporaries) + " " +
 		Encode(FromIR(orig)) + " " + encNames(orig.Temporaries) + " " +
-		interpOut(clone, cb, false) + " " + interpOut(clone, cb, true)
+		interpOut(clone, cc, false) + " " + interpOut(clone, cc, true)
 }
 
-// CheckHistory: the allocation of the clone satisfies the whole of C05 for configuration B whatever
-// ran on the original before; the original is what its own operations alone make of it.
+// CheckHistory: after every allocation the allocated object satisfies the whole of C05 and the
+// C17 bound for the configuration just applied (nothing left over from earlier runs on it or on
+// the object it was cloned from); at the end the original is what the last configuration applied
+// to it makes of a fresh copy (or untouched), and so is the clone.
 func CheckHistory(c, res string) string {
 	if strings.HasPrefix(res, "panic") {
 		return "history panicked: " + res
@@ -405,28 +439,43 @@ func CheckHistory(c, res string) string {
 		return "history on a non-empty unnamed program failed: " + res
 	}
 	g := strings.Split(res, " ")
-	// the clone, judged as a fresh allocation under B
-	if m := CheckAllocation(AllocCase(p, cb), "ok "+g[1]+" "+g[2], false); m != "" {
-		return "clone: " + m
+	// replay, judging every allocation as a fresh one
+	_, _, cc, msg, err := replayHistory(p, ca, cb, f[4], func(obj *ir.Program, c Cfg, isOrig bool) string {
+		return CheckAllocation(AllocCase(p, c), "ok "+Encode(FromIR(obj))+" "+encNames(obj.Temporaries), true)
+	})
+	if err != nil {
+		return "replay failed: " + err.Error()
 	}
-	// the original: untouched by the clone's allocation
-	want, wantTemps := Encode(Strip(p)), "-"
-	if strings.Contains(","+f[4]+",", ",a,") {
-		q, temps, err := Allocate(Strip(p), ca)
+	if msg != "" {
+		return msg
+	}
+	// final states against fresh allocations under the last configuration applied
+	fresh := func(c Cfg) (string, string) {
+		q, temps, err := Allocate(Strip(p), c)
 		if err != nil {
-			return "fresh allocation under A failed: " + err.Error()
+			return "error", err.Error()
 		}
-		want, wantTemps = Encode(q), encNames(temps)
-		if m := CheckAllocation(AllocCase(p, ca), "ok "+g[3]+" "+g[4], false); m != "" {
-			return "original: " + m
+		return Encode(q), encNames(temps)
+	}
+	if w, wt := fresh(cc); g[1] != w || g[2] != wt {
+		return "the clone is not the fresh allocation under the configuration last applied to it: " + g[1] + " " + g[2]
+	}
+	want, wantTemps := Encode(Strip(p)), "-"
+	for _, op := range strings.Split(f[4], ",") {
+		if op == "a" || op == "x" {
+			if op == "a" {
+				want, wantTemps = fresh(ca)
+			} else {
+				want, wantTemps = fresh(cb)
+			}
 		}
 	}
 	if g[3] != want || g[4] != wantTemps {
-		return "the original program was changed by work on its clone: " + g[3] + " " + g[4]
+		return "the original program is not what its own operations make of it: " + g[3] + " " + g[4]
 	}
-	distinct := cb.In != "" && cb.Out != "" && cb.In != cb.Out
+	distinct := cc.In != "" && cc.Out != "" && cc.In != cc.Out
 	for _, t := range decNames(g[2]) {
-		if t == cb.In || t == cb.Out {
+		if t == cc.In || t == cc.Out {
 			distinct = false
 		}
 	}
@@ -439,11 +488,191 @@ func CheckHistory(c, res string) string {
 	return ""
 }
 
+// ---------------------------------------------------------------- several programs from the real producers
+
+// Source says how a program object is produced: by acc.Decompile of an op list or by
+// parse + acc.Translate of a script.
+type Source struct {
+	Ops    addchain.Program
+	Script string
+}
+
+func (s Source) encode() string {
+	if s.Script != "" {
+		return "s" + lib.Bytes([]byte(s.Script))
+	}
+	ss := make([]string, len(s.Ops))
+	for k, op := range s.Ops {
+		ss[k] = fmt.Sprintf("%d+%d", op.I, op.J)
+	}
+	return "o" + strings.Join(ss, ",")
+}
+
+func decodeSource(t string) Source {
+	if t[0] == 's' {
+		return Source{Script: string(lib.ParseBytes(t[1:]))}
+	}
+	var ops addchain.Program
+	for _, f := range strings.Split(t[1:], ",") {
+		ij := strings.Split(f, "+")
+		ops = append(ops, addchain.Op{I: lib.Atoi(ij[0]), J: lib.Atoi(ij[1])})
+	}
+	return Source{Ops: ops}
+}
+
+// Produce builds the program object with the real producer.
+func (s Source) Produce() (*ir.Program, bool) {
+	if s.Script != "" {
+		ch, err := parse.String(s.Script)
+		if err != nil {
+			return nil, false
+		}
+		r, err := acc.Translate(ch)
+		return r, err == nil
+	}
+	r, err := acc.Decompile(s.Ops)
+	return r, err == nil
+}
+
+// Event: the allocator with configuration C runs on program K.
+type Event struct{ K, C int }
+
+// MultiCase builds a multi case line; ok is false when a producer refuses its source.
+func MultiCase(srcs []Source, cfgs []Cfg, evs []Event) (string, bool) {
+	ss, irs, cs, es := []string{}, []string{}, []string{}, []string{}
+	for _, s := range srcs {
+		r, ok := s.Produce()
+		if !ok || len(r.Instructions) == 0 {
+			return "", false
+		}
+		ss = append(ss, s.encode())
+		irs = append(irs, Encode(FromIR(r)))
+	}
+	for _, c := range cfgs {
+		cs = append(cs, encCfg(c))
+	}
+	for _, e := range evs {
+		es = append(es, fmt.Sprintf("%d:%d", e.K, e.C))
+	}
+	return "multi " + strings.Join(ss, "|") + " " + strings.Join(irs, "|") + " " + strings.Join(cs, "|") + " " + strings.Join(es, ","), true
+}
+
+type multiCase struct {
+	srcs []Source
+	irs  []Prog
+	cfgs []Cfg
+	evs  []Event
+}
+
+func parseMulti(f []string) multiCase {
+	var m multiCase
+	for _, t := range strings.Split(f[1], "|") {
+		m.srcs = append(m.srcs, decodeSource(t))
+	}
+	for _, t := range strings.Split(f[2], "|") {
+		m.irs = append(m.irs, Decode(t))
+	}
+	for _, t := range strings.Split(f[3], "|") {
+		m.cfgs = append(m.cfgs, decCfg(t))
+	}
+	for _, t := range strings.Split(f[4], ",") {
+		kc := strings.Split(t, ":")
+		m.evs = append(m.evs, Event{lib.Atoi(kc[0]), lib.Atoi(kc[1])})
+	}
+	return m
+}
+
+func runMulti(f []string) string {
+	m := parseMulti(f)
+	progs := make([]*ir.Program, len(m.srcs))
+	for k, s := range m.srcs {
+		r, ok := s.Produce()
+		if !ok || Encode(FromIR(r)) != Encode(m.irs[k]) {
+			return "err producer"
+		}
+		progs[k] = r
+	}
+	last := make([]int, len(progs))
+	for k := range last {
+		last[k] = -1
+	}
+	for _, e := range m.evs {
+		c := m.cfgs[e.C]
+		if err := (pass.Allocator{Input: c.In, Output: c.Out, Format: c.Format}).Execute(progs[e.K]); err != nil {
+			return "err " + allocErrClass(err)
+		}
+		last[e.K] = e.C
+	}
+	// every program re-examined after all allocations
+	out := make([]string, len(progs))
+	for k, r := range progs {
+		if last[k] < 0 {
+			panic("harness: multi case leaves a program unallocated")
+		}
+		c := m.cfgs[last[k]]
+		out[k] = Encode(FromIR(r)) + "~" + encNames(r.Temporaries) + "~" + interpOut(r, c, false) + "~" + interpOut(r, c, true)
+	}
+	return "ok " + strings.Join(out, "|")
+}
+
+// CheckMulti: at the end every program still satisfies the whole of C05 (and the C17 bound) for the
+// configuration last applied to it, whatever was allocated afterwards.
+func CheckMulti(c, res string) string {
+	if strings.HasPrefix(res, "panic") {
+		return "multi panicked: " + res
+	}
+	f := strings.Split(c, " ")
+	m := parseMulti(f)
+	last := make([]int, len(m.irs))
+	for _, e := range m.evs {
+		last[e.K] = e.C
+	}
+	named := true
+	for _, p := range m.irs {
+		named = named && ConsistentNames(p)
+	}
+	if !strings.HasPrefix(res, "ok ") {
+		if named {
+			return "allocation of produced programs failed: " + res
+		}
+		return ""
+	}
+	parts := strings.Split(strings.TrimPrefix(res, "ok "), "|")
+	if len(parts) != len(m.irs) {
+		return "wrong number of programs in the result"
+	}
+	for k, part := range parts {
+		g := strings.Split(part, "~")
+		cfg := m.cfgs[last[k]]
+		p := m.irs[k]
+		if msg := CheckAllocation(AllocCase(p, cfg), "ok "+g[0]+" "+g[1], true); msg != "" {
+			return fmt.Sprintf("program %d at the end: %s", k, msg)
+		}
+		distinct := cfg.In != "" && cfg.Out != "" && cfg.In != cfg.Out
+		for _, t := range decNames(g[1]) {
+			if t == cfg.In || t == cfg.Out {
+				distinct = false
+			}
+		}
+		if WellFormed(p) && ConsistentNames(p) && distinct {
+			wantv := lib.Hex(ChainValues(p, big.NewInt(1))[p[len(p)-1].Out.Idx])
+			if g[2] != wantv || g[3] != wantv {
+				return fmt.Sprintf("program %d at the end: interpreter %s / %s, last chain element %s", k, g[2], g[3], wantv)
+			}
+		}
+	}
+	return ""
+}
+
 // Histories are the operation sequences of the history stream.
 var Histories = [][]string{
 	{"c", "b"}, {"i", "c", "b"}, {"r", "c", "b"}, {"a", "c", "b"}, {"i", "r", "a", "c", "b"},
 	{"c", "c", "b"}, {"c", "b", "c", "b"}, {"a", "c", "b", "c", "b"}, {"c", "b", "a"}, {"i", "c", "b", "a"},
 	{"c", "i", "b"}, {"c", "a", "b"}, {"a", "c", "c", "b"}, {"r", "c", "b", "i"},
+	// the same object allocated several times, same and different configurations
+	{"a", "a", "c", "b"}, {"a", "x", "c", "b"}, {"x", "a", "c", "y"}, {"c", "b", "b"}, {"c", "b", "y"}, {"c", "y", "b", "b"},
+	{"a", "c", "a", "b"}, {"a", "c", "x", "b", "a"}, {"a", "a", "x", "c", "b", "c", "y", "b"}, {"c", "b", "a", "x", "a"},
+	{"i", "a", "r", "a", "c", "c", "b", "y"}, {"a", "c", "y", "x"},
 }
 
 // ---------------------------------------------------------------- neighbourhoods (hunt mode)
@@ -521,6 +750,13 @@ func Neighbours(c string, r *lib.Rand, emit func(string)) {
 		switch f[0] {
 		case "allocate", "interp":
 			g[1] = Encode(q)
+			emit(strings.Join(g, " "))
+		case "multi":
+			// same programs, another order of the same events
+			evs := strings.Split(f[4], ",")
+			i, j := r.Intn(len(evs)), r.Intn(len(evs))
+			evs[i], evs[j] = evs[j], evs[i]
+			g[4] = strings.Join(evs, ",")
 			emit(strings.Join(g, " "))
 		case "history":
 			g[1] = Encode(Strip(q))
